@@ -413,3 +413,113 @@ Proof.
   destruct (embed_layout p v4 W L4) as (_ & _ & U & _ & S).
   destruct Hbad as [Hb | Hb]; [contradiction | congruence].
 Qed.
+
+(* ---------------- no "host part is zero" hypothesis ----------------
+   net.ParseCIDR delivers masked prefixes, but nothing in embedIPv4 /
+   extractIPv4 (since prefixContains) depends on it: a prefix is legal when
+   validatePrefix accepts it and it has 16 bytes. *)
+Definition legal_prefix (p : ipnet) : Prop := validate_prefix p = true /\ length (n_ip p) = 16%nat.
+Definition mask_prefix (p : ipnet) : ipnet :=
+  let pb := N.to_nat (n_ones p / 8) in
+  mk_net (firstn pb (n_ip p) ++ zeros (16 - pb)) (n_ones p) (n_mlen p).
+
+Lemma masked_eqb_ext nn nn' m x :
+  length nn = length nn' ->
+  (forall i, nth i m 0 = 0 \/ nth i nn 0 = nth i nn' 0) ->
+  masked_eqb nn m x = masked_eqb nn' m x.
+Proof.
+  revert nn' m x. induction nn as [|a nn IH]; intros [|a' nn'] m x L H; try discriminate L; [reflexivity|].
+  destruct m as [|k m]; [reflexivity|]. destruct x as [|b x]; [reflexivity|]. cbn [masked_eqb].
+  rewrite (IH nn' m x); [| cbn in L; lia | intros i; exact (H (S i)) ].
+  destruct (H 0%nat) as [E|E]; cbn in E; subst; [rewrite !N.land_0_r|]; reflexivity.
+Qed.
+
+Lemma legal_shape p : legal_prefix p ->
+  exists a0 a1 a2 a3 a4 a5 a6 a7 a8 a9 a10 a11 a12 a13 a14 a15 ones,
+    p = mk_net [a0;a1;a2;a3;a4;a5;a6;a7;a8;a9;a10;a11;a12;a13;a14;a15] ones 16
+    /\ (ones = 32 \/ ones = 40 \/ ones = 48 \/ ones = 56 \/ ones = 64 \/ ones = 96)
+    /\ (ones = 96 -> a8 = 0).
+Proof.
+  intros (Hv & Hl). destruct p as [ip ones mlen]. cbn in *.
+  apply validate_prefix_inv in Hv. cbn in Hv. destruct Hv as (-> & Hb & Hu).
+  destruct (length16 _ Hl) as (a0&a1&a2&a3&a4&a5&a6&a7&a8&a9&a10&a11&a12&a13&a14&a15&->).
+  exists a0,a1,a2,a3,a4,a5,a6,a7,a8,a9,a10,a11,a12,a13,a14,a15,ones. split; [reflexivity|]. split; [exact Hb|].
+  intros E. apply Hu; [exact E | cbn; lia].
+Qed.
+
+Lemma mask_prefix_wf p : legal_prefix p -> wf_prefix (mask_prefix p).
+Proof.
+  intros L. destruct (legal_shape p L) as (a0&a1&a2&a3&a4&a5&a6&a7&a8&a9&a10&a11&a12&a13&a14&a15&ones&->&Hb&Hu).
+  destruct Hb as [->|[->|[->|[->|[->| ->]]]]]; try (repeat split; reflexivity).
+  rewrite (Hu eq_refl). repeat split; reflexivity.
+Qed.
+Lemma mask_prefix_embed p v4 : legal_prefix p -> embed (mask_prefix p) v4 = embed p v4.
+Proof.
+  intros L. destruct (legal_shape p L) as (a0&a1&a2&a3&a4&a5&a6&a7&a8&a9&a10&a11&a12&a13&a14&a15&ones&->&Hb&_).
+  destruct Hb as [->|[->|[->|[->|[->| ->]]]]]; reflexivity.
+Qed.
+Lemma mask_prefix_spec_embed p v4 : legal_prefix p -> spec_embed (mask_prefix p) v4 = spec_embed p v4.
+Proof.
+  intros L. destruct (legal_shape p L) as (a0&a1&a2&a3&a4&a5&a6&a7&a8&a9&a10&a11&a12&a13&a14&a15&ones&->&Hb&_).
+  destruct Hb as [->|[->|[->|[->|[->| ->]]]]]; reflexivity.
+Qed.
+Lemma mask_prefix_bytes_ok p : legal_prefix p -> bytes_ok (n_ip p) -> bytes_ok (n_ip (mask_prefix p)).
+Proof.
+  intros L B. destruct (legal_shape p L) as (a0&a1&a2&a3&a4&a5&a6&a7&a8&a9&a10&a11&a12&a13&a14&a15&ones&->&Hb&_).
+  cbn [n_ip] in B. bytes_inv B.
+  destruct Hb as [->|[->|[->|[->|[->| ->]]]]];
+    match goal with |- bytes_ok (n_ip (mask_prefix ?q)) => let l := eval cbn in (n_ip (mask_prefix q)) in change (n_ip (mask_prefix q)) with l end;
+    repeat constructor; assumption || lia.
+Qed.
+Lemma mask_prefix_extract p a : legal_prefix p -> extract cur (mask_prefix p) a = extract cur p a.
+Proof.
+  intros L. destruct (legal_shape p L) as (a0&a1&a2&a3&a4&a5&a6&a7&a8&a9&a10&a11&a12&a13&a14&a15&ones&->&Hb&_).
+  assert (forall q q', n_ones q = n_ones q' -> net_contains16 q a = net_contains16 q' a -> extract cur q a = extract cur q' a) as Hx.
+  { intros q q' E1 E2. unfold extract. cbn [cur fx_contains]. rewrite E1, E2. reflexivity. }
+  destruct Hb as [->|[->|[->|[->|[->| ->]]]]]; apply Hx; try reflexivity;
+    unfold net_contains16;
+    match goal with |- context [to16 (n_ip (mask_prefix ?q))] =>
+      let l := eval cbn in (n_ip (mask_prefix q)) in change (to16 (n_ip (mask_prefix q))) with (Some l) end;
+    match goal with |- context [to16 (n_ip (mk_net ?l ?o ?k))] => change (to16 (n_ip (mk_net l o k))) with (Some l) end;
+    destruct (to16 a) as [x|]; try reflexivity; cbn [n_mlen n_ones mask_prefix N.eqb Pos.eqb andb];
+    match goal with |- context [mask_bytes ?o 16] => let m := eval vm_compute in (mask_bytes o 16) in change (mask_bytes o 16) with m end;
+    (apply masked_eqb_ext; [reflexivity|]);
+    intros i; do 16 (destruct i as [|i]; [cbn; auto|]); cbn; destruct i; auto.
+Qed.
+
+Lemma extract_embed_legal p v4 :
+  legal_prefix p -> length v4 = 4%nat -> extract cur p (embed p v4) = Some v4.
+Proof.
+  intros L H4. rewrite <- mask_prefix_extract, <- mask_prefix_embed by exact L.
+  apply extract_embed_now; [apply mask_prefix_wf; exact L | exact H4].
+Qed.
+Lemma extract_sound_legal p a v4 :
+  legal_prefix p -> bytes_ok (n_ip p) -> length a = 16%nat -> bytes_ok a ->
+  extract cur p a = Some v4 -> a = embed p v4 /\ length v4 = 4%nat.
+Proof.
+  intros L Bp La Ba H. rewrite <- mask_prefix_extract in H by exact L. rewrite <- mask_prefix_embed by exact L.
+  apply extract_sound_now; auto; [apply mask_prefix_wf | apply mask_prefix_bytes_ok]; auto.
+Qed.
+Lemma embed_layout_legal p v4 :
+  legal_prefix p -> length v4 = 4%nat ->
+  spec_embed p v4 = Some (embed p v4)
+  /\ length (embed p v4) = 16%nat
+  /\ nthb (embed p v4) 8 = 0
+  /\ firstn (N.to_nat (n_ones p / 8)) (embed p v4) = firstn (N.to_nat (n_ones p / 8)) (n_ip p)
+  /\ all_zero (skipn (suffix_start (n_ones p)) (embed p v4)) = true.
+Proof.
+  intros L H4. destruct (legal_shape p L) as (a0&a1&a2&a3&a4&a5&a6&a7&a8&a9&a10&a11&a12&a13&a14&a15&ones&->&Hb&Hu).
+  destruct (length4 _ H4) as (v0&v1&v2&v3&->).
+  destruct Hb as [->|[->|[->|[->|[->| ->]]]]]; try (repeat split; reflexivity).
+  rewrite (Hu eq_refl). repeat split; reflexivity.
+Qed.
+Lemma extract_rejects_legal p a :
+  legal_prefix p -> bytes_ok (n_ip p) -> length a = 16%nat -> bytes_ok a ->
+  nthb a 8 <> 0 \/ all_zero (skipn (suffix_start (n_ones p)) a) = false ->
+  extract cur p a = None.
+Proof.
+  intros L Bp La Ba Hbad. destruct (extract cur p a) as [v4|] eqn:E; [|reflexivity].
+  apply extract_sound_legal in E; auto. destruct E as [-> L4].
+  destruct (embed_layout_legal p v4 L L4) as (_ & _ & U & _ & S).
+  destruct Hbad as [Hb | Hb]; [contradiction | congruence].
+Qed.
